@@ -350,16 +350,20 @@ def derived_strings(c, strs, limit=24):
     return out[:limit]
 
 
-def build_converter(recs, d, mode):
-    """The converter the records denote, built in one of three ways (the properties quantify over every converter, however
+def build_converter(recs, d, mode, warm=None):
+    """The converter the records denote, built in one of five ways (the properties quantify over every converter, however
     it came about): 0 the constructor; 1 Converter([]) + add_record one by one; 2 bare records first (add_prefix without synonym
     arguments, or add_record for a pattern), their synonyms merged in afterwards with add_prefix(..., merge=True); 3 like 2 with
-    the CURIE-prefix synonyms and the URI-prefix synonyms merged in two separate calls."""
+    the CURIE-prefix synonyms and the URI-prefix synonyms merged in two separate calls; 4 like 3, and the converter is QUERIED
+    (warm: the same questions that are asked at the end) after every single step, so that an answer remembered from an earlier
+    state would show."""
     import curies
 
     if mode == 0:
         return curies.Converter(mk_records(recs), delimiter=d)
     c = curies.Converter([], delimiter=d)
+    step = (lambda: warm(c)) if (mode == 4 and warm) else (lambda: None)
+    step()
     if mode == 1:
         for r in mk_records(recs):
             c.add_record(r)
@@ -369,15 +373,18 @@ def build_converter(recs, d, mode):
             c.add_prefix(p, u)
         else:
             c.add_record(curies.Record(prefix=p, uri_prefix=u, pattern=pat.v))
+        step()
     for p, u, ps, us, pat in recs:
         if mode == 2:
             if ps or us:
                 c.add_prefix(p, u, prefix_synonyms=list(ps), uri_prefix_synonyms=list(us), merge=True)
-        else:   # mode 3: CURIE-prefix synonyms and URI-prefix synonyms arrive in separate merges
+        else:   # modes 3, 4: CURIE-prefix synonyms and URI-prefix synonyms arrive in separate merges
             if ps:
                 c.add_prefix(p, u, prefix_synonyms=list(ps), merge=True)
+                step()
             if us:
                 c.add_prefix(p, u, uri_prefix_synonyms=list(us), merge=True)
+                step()
     return c
 
 
@@ -390,7 +397,7 @@ def observe_q(case):
         code, c = construct(recs, d)
     else:
         try:
-            code, c = 0, build_converter(recs, d, mode)
+            code, c = 0, build_converter(recs, d, mode, warm=lambda cc: battery(cc, strs, pairs))
             recs = [v_record(r) for r in c.records]       # merging sorts the synonym lists
         except Exception:
             code, c = 3, None
@@ -432,7 +439,7 @@ def gen_qcase(rng: random.Random, focus: str):
                 strs.append(r[1] + "1")
         strs = list(dict.fromkeys(strs))
     pairs = gen_pairs(rng, recs, rng.randint(0, 2) if focus not in ("C02", "C08") else rng.randint(1, 3))
-    return [recs, d, strs, pairs, rng.choice([0, 0, 0, 1, 2, 2, 3, 3])]
+    return [recs, d, strs, pairs, rng.choice([0, 0, 0, 1, 2, 2, 3, 3, 4, 4, 4])]
 
 
 def nontrivial_q(focus: str, case) -> bool:
